@@ -84,6 +84,20 @@ Theorem fault_before_no_effect h run : faulty FBefore h run = (h, RErr EOther).
 Proof. reflexivity. Qed.
 Theorem fault_after_has_effect h run : faulty FAfter h run = (fst (run h), RErr EOther).
 Proof. reflexivity. Qed.
+(* the core repository's MarkAsDispatched fails without effect and the wrapper still runs the timer hook: for every
+   other call this is FBefore; at MarkAsDispatched the hook function alone is applied - the repository is unchanged *)
+Theorem fault_before_hook_no_effect h run : faulty FBeforeHook h run = (h, RErr EOther).
+Proof. reflexivity. Qed.
+Theorem before_hook_excuses_nothing r : markdisp_may_take_effect FBeforeHook r = false.
+Proof. reflexivity. Qed.
+Theorem mark_disp_before_hook hc hf now id h :
+  call_mark_disp hc FBeforeHook hf now id h = (hook_dispatched hf now id h, RErr EOther)
+  /\ hs_repo (fst (call_mark_disp hc FBeforeHook hf now id h)) = hs_repo h.
+Proof.
+  split; [reflexivity|]. cbn. unfold hook_dispatched. destruct (hk_cached (hs_hook h)) as [c|]; [|reflexivity].
+  destruct (String.eqb id (t_id c)); [|reflexivity].
+  unfold hk_update. destruct (negb _); [reflexivity|]. destruct hf; [reflexivity|]. destruct (get_next _); reflexivity.
+Qed.
 
 (* C05 / C07: the pinned hook strands a due task (the defect that was repaired); the repaired one does not on
    the same history *)
